@@ -40,8 +40,8 @@ try:
     for p in a.patch:
         subprocess.check_call(["patch", "-p1", "-s", "-d", repo, "-i", os.path.abspath(p)])
     if a.suite:
-        r = subprocess.run(["/venv/bin/python", "-m", "pytest", "-q", "-p", "no:cacheprovider", "-x", "-n", "12",
-                            "--deselect", "tests/algorithm_tests/osu/replay"], cwd=repo, stdout=subprocess.PIPE,
+        r = subprocess.run(["/venv/bin/python", "-m", "pytest", "-q", "-p", "no:cacheprovider", "-n", "8", "--dist", "loadfile",
+                            "--deselect", "tests/algorithm_tests/osu/replay/test_parse_replay.py::test_parse_replays_error_osr"], cwd=repo, stdout=subprocess.PIPE,
                            stderr=subprocess.STDOUT, text=True, env=dict(os.environ, PYTHONPATH=repo))
         print("SUITE:", r.stdout.strip().split("\n")[-1])
     before = set(glob.glob(os.path.join(VERIF, "replays", "*.json")))
